@@ -1759,7 +1759,9 @@ class LeCreditBasedChannel(utils.EventEmitter):
             self.connection_result.cancel()
             self.connection_result = None
         if self.disconnection_result is not None:
-            self.disconnection_result.set_result(None)
+            # (the caller of disconnect() may have given up: its future is cancelled)
+            if not self.disconnection_result.done():
+                self.disconnection_result.set_result(None)
             self.disconnection_result = None
 
     def on_pdu(self, pdu: bytes) -> None:
@@ -1895,7 +1897,8 @@ class LeCreditBasedChannel(utils.EventEmitter):
         self._change_state(self.State.DISCONNECTED)
         self.manager.on_channel_closed(self)
         if self.disconnection_result is not None:
-            self.disconnection_result.set_result(None)
+            if not self.disconnection_result.done():
+                self.disconnection_result.set_result(None)
             self.disconnection_result = None
         self.flush_output()
 
@@ -1914,7 +1917,8 @@ class LeCreditBasedChannel(utils.EventEmitter):
         self._change_state(self.State.DISCONNECTED)
         self.manager.on_channel_closed(self)
         if self.disconnection_result:
-            self.disconnection_result.set_result(None)
+            if not self.disconnection_result.done():
+                self.disconnection_result.set_result(None)
             self.disconnection_result = None
 
     def on_att_mtu_update(self, mtu: int) -> None:
